@@ -2,12 +2,14 @@
 # Build the framework from files on disk only (offline): regenerate coq/Gen from /repo,
 # create the Makefile, build every .vo (full build, no -vos/-vok).
 set -e
-cd /verif
-export PYTHONPATH=/repo PYTHONHASHSEED=0 PYTHONDONTWRITEBYTECODE=1
+cd "$(dirname "$0")"
+HERE="$(pwd)"
+export PYTHONPATH="${VERIF_REPO:-/repo}" PYTHONHASHSEED=0 PYTHONDONTWRITEBYTECODE=1
 mkdir -p coq/Gen coq/cases evidence replays
 /venv/bin/python - <<'PY'
 import sys
-sys.path.insert(0, '/verif/harness')
+import os
+sys.path.insert(0, os.path.join(os.getcwd(), 'harness'))
 import common
 ok, log = common.regen()
 print(log)
